@@ -3,6 +3,7 @@ from lib import core
 from props import C02
 
 LEVEL = 'other'
+BBH_FEATURES = ['prover', 'oracle']      # harness command families this check needs (fallback build, lib/core.py build_bbh)
 
 
 def parse_tape(tp):
